@@ -333,6 +333,10 @@ def c14_run(rep, rng, tier, term):
             if ref[0] == 'ok' and got[0] == 'ok' and got[1][0] != ref[1][0]:
                 viol.append({'oracle': 'C14.codes', 'case': {'code': c, 'form': '[%d' % c}, 'msg': 'verbatim differs: %s vs %s' % (got, ref)})
         reqs.append([7, [2, c]]); meta.append((c, ref if c else call(lambda: settings_of([c]))))
+    # a directive is a code when it is made of decimal digits; blanks around it and leading zeros are tolerated
+    for (txt, code) in ((' 31 ', 31), ('007', 7), ('31 ', 31), ('0031', 31), ('bold; 31', None)):
+        if code is not None:
+            check_equal('codes', code, [txt, [txt], 'bold;' + txt if False else txt], {'directive': txt})
     # groups
     groups = [[38, 5, 214], [48, 2, 1, 2, 3], [58, 5, 9], [1, 38, 5, 214], [4, 58, 2, 1, 2, 3], [31, 1], [38, 5, 214, 1], [1, 31, 4]]
     for g in groups:
@@ -441,6 +445,7 @@ def c14_run(rep, rng, tier, term):
            ('rgb((1,2,3])', 'ValueError'), ('rgb([1,2,3))', 'ValueError'), ('bg_rgb()0x102030])', 'ValueError'), ('color256()7)', 'ValueError'),
            ('ul_colour256([7)', 'ValueError'), ('dul_color256(7])', 'ValueError'), ('rgb(1,2,3)\n', 'ValueError'), ('color256(7)\n', 'ValueError'),
            ('rgb(0x102030)\n', 'ValueError'), ('rgb([1,2,3]', 'ValueError'), ('rgb(1,2,3', 'ValueError'), ('rgb)1,2,3(', 'ValueError'),
+           ('1_0', 'ValueError'), ('+1', 'ValueError'), ('-0', 'ValueError'), ('\uff13\uff11', 'ValueError'), ('\u0663', 'ValueError'), ('bold;3_1', 'ValueError'), ('1.0', 'ValueError'), ('1e1', 'ValueError'),
            ('nosuchname', 'ValueError'), (-1, 'ValueError'), ('rgb(1,2)', 'ValueError'), ('rgb(zz)', 'ValueError'), ('rgb(1,2,x)', 'ValueError'),
            ('color256(g)', 'ValueError'), (1.5, 'TypeError'), (None, 'skip'), ({'a': 1}, 'TypeError'), (['red', 2.5], 'TypeError'), ('-3', 'ValueError'),
            ('bold;nosuch', 'ValueError'), ([[-2]], 'ValueError')]
@@ -665,6 +670,10 @@ def c16_run(rep, rng, tier, term):
             if not regex and pat and rng.random() < 0.3:
                 # the literal occurs only with another letter case (matching ignores case unless match_case=True)
                 pat = pat.swapcase() if rng.random() < 0.5 else pat.upper()
+            if pat and '\x1b' not in pat and rng.random() < 0.1 and (not regex or pat.isalnum()):
+                # an (unformatted) AnsiStr is a str and may be the pattern (re itself cannot read a pattern WITH metacharacters
+                # from an AnsiStr: its tokenizer compares characters with ==, which AnsiStr defines against AnsiStr only)
+                pat = AnsiStr(pat)
             mc = rng.random() < 0.5
             cnt = rng.choice([-1, -1, 0, 1, 2, 3])
             un = rng.random() < 0.4
@@ -677,7 +686,7 @@ def c16_run(rep, rng, tier, term):
                         forms = ['[' + str(rng.choice(ss))]
             else:
                 forms = [form_py(g.simple_form()) for _ in range(rng.randint(0, 2))]
-            payload = {'history': ops, 'object': i, 'method': 'unformat_matching' if un else 'format_matching', 'pattern': pat, 'regex': regex,
+            payload = {'history': ops, 'object': i, 'method': 'unformat_matching' if un else 'format_matching', 'pattern': str.__str__(pat), 'pattern_class': type(pat).__name__, 'regex': regex,
                        'match_case': mc, 'count': cnt, 'format': [repr(f) for f in forms]}
             rep.count(payload, len((o._s if is_str else o)._fmts) >= 2)
             rep.bump(('AnsiStr.' if is_str else '') + ('unformat' if un else 'format'))
@@ -686,7 +695,7 @@ def c16_run(rep, rng, tier, term):
             if is_str and r1[0] == 'ok':
                 c1 = r1[1]                               # the returned AnsiStr carries the result
             def loop():
-                p = pat if regex else re.escape(pat)
+                p = str.__str__(pat) if regex else re.escape(str.__str__(pat))
                 n = cnt
                 for m in re.finditer(p, c2.base_str, 0 if mc else re.IGNORECASE):
                     if n == 0:
@@ -707,6 +716,19 @@ def c16_run(rep, rng, tier, term):
                 viol.append({'oracle': 'C16.state', 'case': payload, 'msg': 'state differs from the explicit apply/remove loop: %s vs %s' % (describe(c1), describe(c2))})
             if c1.base_str != o.base_str:
                 viol.append({'oracle': 'C16.text', 'case': payload, 'msg': 'text changed'})
+    # an (unformatted) AnsiStr is a str and may be the pattern, literal or regular expression
+    for regex in (False, True):
+        for cls in (AnsiString, AnsiStr):
+            payload = {'text': 'abab', 'pattern': "AnsiStr('b')", 'regex': regex, 'class': cls.__name__}
+            rep.count(payload, True)
+            src = AnsiString('abab', 'red')
+            c1, c2 = cls(src), AnsiString(src)
+            r1 = call(lambda: c1.format_matching(AnsiStr('b'), 'bold', regex=regex))
+            res = r1[1] if (cls is AnsiStr and r1[0] == 'ok') else c1
+            for m in re.finditer('b', 'abab', re.IGNORECASE):
+                c2.apply_formatting('bold', m.start(), m.end())
+            if r1[0] != 'ok' or value_obs(res) != value_obs(c2):
+                viol.append({'oracle': 'C16.state', 'case': payload, 'msg': 'format_matching(AnsiStr pattern): %s, explicit loop %s' % (describe(res) if r1[0] == 'ok' else r1, describe(c2))})
     # characters on which str.lower() / casefold() and re.IGNORECASE disagree, or whose lower-case form has another length
     for text in ('\u0130zmir is big', '\u039f\u0394\u039f\u03a3 \u03bf\u03b4\u03bf\u03c2', 'Mi\u017f\u017fi\u017f\u017fippi', 'stra\u00dfe STRASSE', 'a\u212ab K k', '\ufb01sh FISH'):
         for spec in sorted(set([text[1:3], text[-3:], text[-3:].upper(), text[:2].lower(), 'IS', 'ss', 'SS', 'k', '\u03bf\u03b4\u03bf\u03c3', 'fi', 's'])):
@@ -1065,6 +1087,18 @@ def c12fmt_run(rep, rng, tier, term):
             got = call(lambda: format(o, bad))
             if got != ('err', 'ValueError'):
                 viol.append({'oracle': 'C12.format.error', 'case': payload, 'msg': 'format(s, %r) %s, expected ValueError' % (bad, got)})
+    # an AnsiStr is a str: as fill character it stands for its TEXT (its raw str value is its rendering)
+    for (vname, v) in (("AnsiString('ab','bold')", AnsiString('ab', 'bold')), ("AnsiStr('ab','bold')", AnsiStr('ab', 'bold')), ("AnsiString('')", AnsiString(''))):
+        for fill in (AnsiStr('*', 'red'), AnsiStr('.'), AnsiStr('\u00e9', 'bold', 'red')):
+            for meth, ref in (('ljust', str.ljust), ('rjust', str.rjust), ('center', None)):
+                for w in (0, 3, 6):
+                    payload = {'value': vname, 'method': meth, 'width': w, 'fillchar': 'AnsiStr(%r, ...)' % fill.base_str}
+                    rep.count(payload, True)
+                    got = call(lambda: getattr(v, meth)(w, fill))
+                    want = call(lambda: getattr(v, meth)(w, fill.base_str))
+                    if got[0] != 'ok' or want[0] != 'ok' or value_obs(got[1]) != value_obs(want[1]) or '\x1b' in got[1].base_str:
+                        viol.append({'oracle': 'C12.fill', 'case': payload,
+                                     'msg': '%s.%s(%d, AnsiStr fill): %s; with the fill character itself: %s' % (vname, meth, w, describe(got[1]) if got[0] == 'ok' else got, describe(want[1]) if want[0] == 'ok' else want)})
     # values WITHOUT any setting take their own early path in to_str; widths with leading zeros and specs that Python's
     # own str.__format__ would accept with another meaning (precision, type character, non-ASCII digits, '=' alignment,
     # grouping) must behave exactly as for styled values: the documented grammar, nothing more
@@ -1358,3 +1392,19 @@ def c17_find_oracle(term, ops, recs, fails):
             continue
         if fe is not None and fe < n and has(fe):
             fails.append({'oracle': 'C17.find', 'step': t, 'msg': 'found_end %s still has all settings' % fe})
+
+
+# ====================================================================== C11 extra: assign_str with an AnsiStr argument
+def c11_assign_ansistr_run(rep, rng, tier, term):
+    viol = []
+    for (vname, mk) in (("AnsiString('abc','bold')", lambda: AnsiString('abc', 'bold')), ("AnsiString('')", lambda: AnsiString('')),
+                        ("AnsiString('abcdef','red') + bold[2:4]", lambda: (lambda s: (s.apply_formatting('bold', 2, 4), s)[1])(AnsiString('abcdef', 'red')))):
+        for arg in (AnsiStr('xyzw', 'red'), AnsiStr('x'), AnsiStr('', 'bold'), AnsiStr('\u00e9\u00df', 'underline')):
+            a, b = mk(), mk()
+            payload = {'value': vname, 'argument': 'AnsiStr(%r, ...)' % arg.base_str}
+            rep.count(payload, True)
+            ra, rb = call(lambda: a.assign_str(arg)), call(lambda: b.assign_str(arg.base_str))
+            if ra[0] != rb[0] or value_obs(a) != value_obs(b) or type(a.base_str) is not str or '\x1b' in a.base_str:
+                viol.append({'oracle': 'C11.assign.ansistr', 'case': payload,
+                             'msg': 'assign_str(AnsiStr) gives %s (base_str type %s); assign_str of its text gives %s' % (describe(a), type(a.base_str).__name__, describe(b))})
+    return viol, []
